@@ -63,7 +63,7 @@ def state(loader):
     return out
 
 
-TASKS = [StructTask("worker", worker), StructTask("driver", driver), StructTask("no-module-state", state)]
+TASKS = [StructTask("worker", worker, textual=True), StructTask("driver", driver, textual=True), StructTask("no-module-state", state)]
 
 META = dict(
     level="other",
